@@ -604,6 +604,106 @@ pub fn escape_matrix() -> Vec<(String, String)> {
     out
 }
 
+/// Term matrix: every kind of RDF term token the scanners know (numeric literals with sign /
+/// fraction / exponent, booleans, language-tagged and datatyped literals, single-, triple-quoted
+/// literals, blank nodes, prefixed names with dots / empty prefix / empty local part, IRIs with a
+/// fragment or a numeric escape, `a`), in every position where the grammar allows it. Each entry is
+/// (request text, token that must appear verbatim in the tree).
+pub fn term_matrix() -> Vec<(String, String)> {
+    let prologue = "PREFIX ex: <http://e/> PREFIX : <http://d/> ";
+    let objects = [
+        "1",
+        "-1",
+        "+1",
+        "1.5",
+        "-1.5",
+        ".5",
+        "1e3",
+        "1.5E-3",
+        "-1.0e+2",
+        "true",
+        "false",
+        "\"x\"@en",
+        "\"x\"@en-US",
+        "\"x\"^^<http://e/dt>",
+        "\"x\"^^ex:dt",
+        "\"7\"^^<http://www.w3.org/2001/XMLSchema#integer>",
+        "'x'",
+        "'x y'@en",
+        "'''x'y'''",
+        "\"\"\"x\"y\"\"\"",
+        "\"\"\"two\nlines\"\"\"",
+        "\"\"",
+        "''",
+        "_:b1",
+        "_:b-1",
+        "_:b.1",
+        "ex:a",
+        "ex:a.b",
+        "ex:a-b_c",
+        "ex:1a",
+        ":a",
+        "ex:",
+        ":",
+        "<http://e/a#frag>",
+        "<http://e/a?x=1&y=2>",
+        "<http://e/\\u0041>",
+        "<urn:x:y>",
+        "<< <http://e/a> <http://e/p> <http://e/b> >>",
+        "<< ?s ex:p \"x\" >>",
+    ];
+    let subjects = ["_:b1", "ex:a", ":a", "ex:a.b", "<http://e/a#frag>", "<urn:x:y>", "<< <http://e/a> <http://e/p> <http://e/b> >>"];
+    let predicates = ["a", "ex:p", ":p", "ex:p.q", "<http://e/p#frag>", "<urn:p>"];
+    let mut out = Vec::new();
+    for o in objects {
+        out.push((format!("{}SELECT ?s WHERE {{ ?s ex:p {} . }}", prologue, o), o.to_string()));
+        out.push((format!("{}SELECT ?s WHERE {{ ?s ex:p {} }}", prologue, o), o.to_string()));
+        out.push((format!("{}SELECT ?s WHERE {{ ?s ex:p {} ; ex:q ?z , {} . }}", prologue, o, o), o.to_string()));
+        if !o.starts_with("_:") && !o.starts_with("<<") {
+            out.push((format!("{}SELECT ?s WHERE {{ VALUES ?o {{ {} }} ?s ex:p ?o . }}", prologue, o), o.to_string()));
+            out.push((format!("{}SELECT ?s WHERE {{ ?s ex:p ?o . FILTER(?o = {}) }}", prologue, o), o.to_string()));
+        }
+        if !o.starts_with("<<") {
+            out.push((format!("{}INSERT DATA {{ ex:s ex:p {} . }}", prologue, o), o.to_string()));
+        }
+    }
+    for t in subjects {
+        out.push((format!("{}SELECT ?o WHERE {{ {} ex:p ?o . }}", prologue, t), t.to_string()));
+    }
+    for t in predicates {
+        out.push((format!("{}SELECT ?o WHERE {{ ?s {} ?o . }}", prologue, t), t.to_string()));
+        out.push((format!("{}SELECT ?o WHERE {{ GRAPH ex:g {{ ?s {} ?o }} }}", prologue, t), t.to_string()));
+    }
+    for gname in ["ex:g", ":g", "<http://e/g#1>", "?g"] {
+        out.push((format!("{}SELECT ?o FROM <http://e/g1> FROM NAMED <http://e/g2> WHERE {{ GRAPH {} {{ ?s ex:p ?o }} }}", prologue, gname), gname.to_string()));
+    }
+    out
+}
+
+/// Err((symptom, detail)) when a valid term token is not accepted verbatim by parse_combined_query
+pub fn term_matrix_one(text: &str, token: &str) -> Result<(), (String, String)> {
+    let got = guarded(|| -> Result<String, String> {
+        let (rest, c) = parse_combined_query(text).map_err(|e| format!("rejected: {:?}", e))?;
+        if !rest_is_blank(rest) {
+            return Err(format!("trailing input {:?}", rest));
+        }
+        Ok(format!("{:?}", c.sparql))
+    });
+    match got {
+        Err(p) => Err(("panic".into(), format!("parse_combined_query on {:?}: {}", text, p))),
+        Ok(Err(e)) => Err(("valid_query_rejected".into(), format!("{:?}: {}", text, crate::infra::truncate(&e, 300)))),
+        Ok(Ok(debug)) => {
+            let needle = format!("{:?}", token);
+            let needle = &needle[1..needle.len() - 1];
+            if debug.contains(needle) {
+                Ok(())
+            } else {
+                Err(("tree_differs".into(), format!("{:?}: token {} not found verbatim in {}", text, token, crate::infra::truncate(&debug, 500))))
+            }
+        }
+    }
+}
+
 /// Err((symptom, detail)) when a valid literal token is not accepted verbatim
 pub fn escape_matrix_one(text: &str, token: &str) -> Result<(), (String, String)> {
     for which in ["parse_sparql_query", "parse_combined_query"] {
@@ -758,6 +858,20 @@ fn run(ctx: &Ctx) -> ShardOut {
             out.fail(json!({"family": "escape_matrix", "input": text, "token": token}), &sym, detail, vec!["family=escape_matrix".into(), format!("multibyte={}", !text.is_ascii())]);
         }
     }
+    // term matrix
+    for (text, token) in term_matrix() {
+        idx += 1;
+        if !ctx.mine(idx) {
+            continue;
+        }
+        out.evaluations += 1;
+        out.count("term_matrix_cases", 1);
+        out.nontrivial(&text);
+        record_totality(&mut out, ctx, "term_matrix", &text);
+        if let Err((sym, detail)) = term_matrix_one(&text, &token) {
+            out.fail(json!({"family": "term_matrix", "input": text, "token": token}), &sym, detail, vec!["family=term_matrix".into(), format!("token={}", token)]);
+        }
+    }
     if ctx.shard == 0 {
         for (ui, u) in ugen::valid_updates().iter().enumerate() {
             if !update_is_syntactically_valid(u) {
@@ -809,6 +923,15 @@ fn replay(ctx: &Ctx, case: &Value) -> ShardOut {
                 if let Err((sym, detail)) = faithful_update(u, layout) {
                     out.fail(case.clone(), &sym, detail, vec![format!("layout={:?}", layout), "family=faithfulness_update".into()]);
                 }
+            }
+        }
+        "term_matrix" => {
+            let input = case["input"].as_str().unwrap_or("").to_string();
+            let token = case["token"].as_str().unwrap_or("").to_string();
+            out.evaluations += 1;
+            record_totality(&mut out, ctx, "term_matrix", &input);
+            if let Err((sym, detail)) = term_matrix_one(&input, &token) {
+                out.fail(case.clone(), &sym, detail, vec!["family=term_matrix".into(), format!("token={}", token)]);
             }
         }
         "escape_matrix" => {
